@@ -119,6 +119,7 @@ func checkC05(c mutCase) error {
 	// the other way round (byte-identical maps, so anything remembered about "these bytes" is wrong here)
 	for i, tw := range c05Twins(c.Wire) {
 		tc := mutCase{SeedKind: c.SeedKind, Seed: c.Seed, Wire: tw, Muts: append(append([]gen.Mutation{}, c.Muts...), gen.Mutation{Op: "twin/bucket-moved", Path: fmt.Sprint(i)})}
+		stats.Eval()
 		stats.Class("twin-with-a-header-map-in-the-other-bucket")
 		if err := checkC05One(tc); err != nil {
 			return err
